@@ -18,7 +18,7 @@ import (
 func init() { Registry["C15"] = checkC15 }
 
 func checkC15(p *core.Prog, r *core.Report) {
-	r.Explanation = "Decides structural necessary conditions of the atomic-register behaviour: (R1) on every path of Lock/UnLock/wakeUpWaitLock that applies a value operation (ProcessLockData) and then answers, the reply's value argument is a GetLockData() result obtained before the operation, inside the same shard-mutex section; (R2) refusal replies are reached without ProcessLockData/ProcessRecoverLockData on the path; (R3) the operation switches of ProcessLockData and ProcessRecoverLockData have a case for every LOCK_DATA_COMMAND_TYPE_* constant; (R4) the Redis-style command names are registered identically in the leader and follower text protocols and in the converter; (R5) published value frames are immutable: no element store, copy destination or append base in the value-operation code derives from the manager's current frame (replies, undo records and the log still reference it). (R6) the pre-operation value kept for a pending request (LockData.recoverData) is read before the call that clears it, never after. (R7) the Redis-style result writers answer with an error line only on a path where the engine's result code was tested non-zero (an applied operation is never reported as refused). (R8) the data frame a binary request carries is a private buffer: Stream.ReadBytesFrame returns only freshly made slices and the decoder adopts only those (the value operations keep the frame as the stored value). NOT decided: the byte surgery of each operation, numeric overflow, the Redis-style answers."
+	r.Explanation = "Decides structural necessary conditions of the atomic-register behaviour: (R1) on every path of Lock/UnLock/wakeUpWaitLock that applies a value operation (ProcessLockData) and then answers, the reply's value argument is a GetLockData() result obtained before the operation, inside the same shard-mutex section; (R2) refusal replies are reached without ProcessLockData/ProcessRecoverLockData on the path; (R3) the operation switches of ProcessLockData and ProcessRecoverLockData have a case for every LOCK_DATA_COMMAND_TYPE_* constant; (R4) the Redis-style command names are registered identically in the leader and follower text protocols and in the converter; (R5) published value frames are immutable: no element store, copy destination or append base in the value-operation code derives from the manager's current frame (replies, undo records and the log still reference it). (R6) the pre-operation value kept for a pending request (LockData.recoverData) is read before the call that clears it, never after. (R7) the Redis-style result writers answer with an error line only on a path where the engine's result code was tested non-zero (an applied operation is never reported as refused). (R8) the data frame a binary request carries is a private buffer: Stream.ReadBytesFrame returns only freshly made slices and the decoder adopts only those (the value operations keep the frame as the stored value). (R9) on a grant that adds a holder the key's depth is incremented before the request's value operation runs (the operation reads the depth for first/last-holder-only operations). NOT decided: the byte surgery of each operation, numeric overflow, the Redis-style answers."
 	r.Assumptions = []string{"Go type checker and go/ssa are correct for /repo", "GetLockData returns the current frame without copying (so R5 matters)"}
 	c15R1(p, r)
 	c15R2(p, r)
@@ -28,6 +28,7 @@ func checkC15(p *core.Prog, r *core.Report) {
 	c15R6(p, r)
 	c15R7(p, r)
 	c15R8(p, r)
+	c15R9(p, r)
 }
 
 func c15R1(p *core.Prog, r *core.Report) {
@@ -773,5 +774,59 @@ func c15R8(p *core.Prog, r *core.Report) {
 	}
 	if n == 0 {
 		r.Fail("C15/R8: no adoption site found in the binary request decoder")
+	}
+}
+
+// c15R9: the value operation consults the key's depth (LockManager.locked) to
+// decide "first holder only / last holder only" operations. When a request is
+// granted as a new holder, the depth must already include that holder when
+// ProcessLockData runs, otherwise the first-holder operation is dropped for
+// the real first holder and applied (over the stored value) for the second.
+func c15R9(p *core.Prog, r *core.Report) {
+	const rule = "C15/R9"
+	r.Rule(rule, "on every grant path that adds a holder (AddLock) and then applies the request's value operation (ProcessLockData), the key's depth was incremented in between", 2)
+	depth := fk("server.LockManager", "locked")
+	n := 0
+	for _, name := range []string{"server.(*LockDB).Lock", "server.(*LockDB).wakeUpWaitLock"} {
+		fn := mustFunc(p, r, name)
+		if fn == nil {
+			continue
+		}
+		ex := core.NewExplorer(p, core.Hooks{
+			Instr: func(x *core.X) {
+				if calleeIs(x.Ins, "LockManager", "AddLock") {
+					x.Set("added", core.Plain(argCanon(x, x.Ins, 1)))
+					x.Set("counted", "")
+					return
+				}
+				if st, ok := x.Ins.(*ssa.Store); ok {
+					if k, ok := storeKey(st.Addr); ok && k == depth && signOf(st) == "+" {
+						x.Set("counted", "1")
+					}
+					return
+				}
+				if !calleeIs(x.Ins, "LockManager", "ProcessLockData") || x.Get("added") == "" {
+					return
+				}
+				if core.Plain(argCanon(x, x.Ins, 2)) != x.Get("added") {
+					return
+				}
+				n++
+				key := siteKey(p, x.Ins)
+				if x.Get("counted") == "1" {
+					r.Hold(rule, key, x.Pos(), "depth includes the new holder")
+				} else {
+					r.Violate(rule, key, x.Pos(), "the request's value operation runs after the holder was added but before the key's depth was incremented: ProcessLockData reads the depth to decide first-holder-only operations, so the real first holder's operation is dropped and a second holder's is applied", x.St.Trace)
+				}
+			},
+		})
+		ex.NoHist = true
+		ex.Run(fn, nil)
+		if ex.Imprecise != "" {
+			r.Fail("C15/R9 %s: %s", name, ex.Imprecise)
+		}
+	}
+	if n == 0 {
+		r.Fail("C15/R9: no grant path with a value operation found")
 	}
 }
